@@ -520,6 +520,7 @@ def exec_history(hist, workdir, collect=None, light=False):
         n = y.size
         Knm_i_mn = np.zeros((n, n))
         Kimn = []
+        Kimn_raw = []
         condmm = 1.0
         Kmms = []
         for ik, kern in enumerate(gp.kernels):
@@ -534,6 +535,7 @@ def exec_history(hist, workdir, collect=None, light=False):
             condmm = max(condmm, float(w.max() / max(w.min(), 1e-300)))
             sol = v.dot((v.T.dot(Kmn[ik])) / w[:, None])
             Kimn.append(sol)
+            Kimn_raw.append(sol)
             Knm_i_mn += Kmn[ik].T.dot(sol)
         nn = noise**2
         if x is not None:
@@ -546,7 +548,7 @@ def exec_history(hist, workdir, collect=None, light=False):
         condK = float(w.max() / max(w.min(), 1e-300))
         amol = v.dot(v.T.dot(y) / w)
         alphas = [k.dot(amol) for k in Kimn]
-        return {"y": y, "noise": noise, "Kmn": Kmn, "Kcov": Knm_i_mn, "K": K, "amol": amol, "alphas": alphas, "condK": condK, "condmm": condmm, "Kmms": Kmms, "x": x}
+        return {"y": y, "noise": noise, "Kmn": Kmn, "Kcov": Knm_i_mn, "K": K, "amol": amol, "alphas": alphas, "condK": condK, "condmm": condmm, "Kmms": Kmms, "x": x, "Kimn_raw": Kimn_raw}
 
     class _Abort(Exception):
         pass
@@ -652,7 +654,11 @@ def exec_history(hist, workdir, collect=None, light=False):
                   # backward error of (Kmm + eps I) alpha = Kmn alpha_mol  (x0^2 folded in)
                   rhs = R["Kmn"][ik].dot(R["amol"]) * (1.0 if op["x"] is None else op["x"][0] ** 2)
                   lhs = R["Kmms"][ik].dot(a)
-                  sc = np.abs(R["Kmms"][ik]).sum(1).max() * np.abs(a).max() + np.abs(rhs).max()
+                  # alpha is formed as ((Kmm+eps)^-1 Kmn) alpha_mol, so its backward error scales with
+                  # |A| (|A^-1 Kmn| |alpha_mol|), which can exceed |A||alpha| through cancellation
+                  x02 = 1.0 if op["x"] is None else op["x"][0] ** 2
+                  growth = (np.abs(R["Kimn_raw"][ik]).dot(np.abs(R["amol"]))).max() * x02
+                  sc = np.abs(R["Kmms"][ik]).sum(1).max() * max(np.abs(a).max(), growth) + np.abs(rhs).max()
                   if a.shape != R["alphas"][ik].shape or np.abs(lhs - rhs).max() > 1e-9 * sc:
                       V("fit:kernel_alpha:normal-equations", "step %d kernel %d: residual %.3g scale %.3g" % (step, ik, np.abs(lhs - rhs).max() if a.shape == R["alphas"][ik].shape else -1, sc))
                   # and forward agreement scaled by conditioning
